@@ -73,11 +73,17 @@ class Menu:
             ("abc", None, "abc"),
             ("1.5", None, "1.5"),
             ("", None, "empty"),
+            # objects that are neither int, nor str, nor a tag enum: refused as well (never stored under "1.0" / "True")
+            (1.0, None, "float_int"),
+            (55.7, None, "float_frac"),
+            (True, None, "bool"),
+            (None, None, "none"),
         ]
+        self.NONSTR = (9, 10, 11, 12)
         self.CANON = ["1", "55", "78", str(CUSTOM)]
         self.BASE_TAG = {}  # tag index -> index of the simplest spelling of the same class
         for i, (_s, c, _k) in enumerate(self.TAGS):
-            self.BASE_TAG[i] = self.CANON.index(c) if c is not None else 6
+            self.BASE_TAG[i] = self.CANON.index(c) if c is not None else (9 if i in self.NONSTR else 6)
         SEP = f"{A}|55={A}"  # a value that contains the printed-form separators
         self.SEP = SEP
         # (raw value, expected string form, kind)
@@ -124,7 +130,7 @@ class Menu:
         index; refused spellings get the variants that can tell them apart."""
         ops = []
         nt = len(self.TAGS)
-        bad = [i for i in range(nt) if self.TAGS[i][1] is None]
+        bad = [i for i in range(nt) if self.TAGS[i][1] is None and i not in self.NONSTR]
         good = [i for i in range(nt) if self.TAGS[i][1] is not None]
         for rep in (0, 1):
             for ti in good:
@@ -139,7 +145,7 @@ class Menu:
                 ops.append(("setitem", ti, vi))
         for ti in bad:
             ops.append(("setitem", ti, 0))
-        for ti in range(nt):
+        for ti in good + bad + [self.NONSTR[0]]:
             ops.append(("del", ti))
         for ti in good:
             alt = self.TAGS[ti][2] != "int"
@@ -164,6 +170,20 @@ class Menu:
         for ti in (2, 0, 6):
             for li in range(self.N_VALID_LISTS, len(self.LISTS)):
                 ops.append(("set_group", ti, li))
+        # non-str / non-int tag objects: one variant per mutator
+        for ti in self.NONSTR:
+            ops.append(("set", ti, 0, 0))
+            ops.append(("add_group", ti, 0, 0, -1))
+            ops.append(("set_group", ti, 1))
+        # negative indexes below -1 (list.insert semantics; only -1 means append)
+        for ti in good:
+            if self.TAGS[ti][2] == "int":
+                for ii in range(self.N_VALID_ITEMS):
+                    ops.append(("add_group", ti, ii, ii % 2, -2))
+                ops.append(("add_group", ti, 1, 0, -3))
+                ops.append(("add_group", ti, 2, 1, -3))
+            else:
+                ops.append(("add_group", ti, 1, 0, -2))
         # group item reached through an accessor, then modified: ("item", tag, position, accessor, inner op)
         for ti in (0, 1, 2, 3, 5):
             for pos in (0, 1):
@@ -262,6 +282,8 @@ def model_apply(M, st, op):
         if tk == "plain":
             return "plain_msgerr", st
         cur = dict(st)[canon]
+        if idx < -1:
+            idx = max(0, len(cur) + idx)  # list.insert semantics for every index but -1
         if idx == -1 or idx >= len(cur):
             new = cur + (item,)
         else:
@@ -586,6 +608,8 @@ def observe_tags(M, c, st, o, full=True):
     gvals = [M.A, M.B, "1.5"]
     for ti, (tag, canon, sk) in enumerate(M.TAGS):
         ts = tagsrc(M, ti)
+        if canon is None and ti in M.NONSTR and not full:
+            continue
         if canon is None:
             # refused spellings: a map from integer tags cannot hold them
             r = call(c.get, tag)
@@ -853,6 +877,18 @@ def observe_whole(M, cls, path, c, st, o, full=True):
     if not (r[0] and r[1] == st):
         o.add("ordered_map", "items", "whole", "int", None, r, repr(st), "list(c.items())")
         return  # the state itself is off: the remaining whole-object observers would only echo it
+    # ---- constructor with refused tag spellings (once, at the root) ----------------
+    if not st and full:
+        for ti, (tag, canon, sk) in enumerate(M.TAGS):
+            if canon is not None or tag is None:
+                continue
+            tgt = "nonstr_tag" if ti in M.NONSTR else "nonint"
+            for d in ({tag: M.A}, {tag: [{1: M.A}]}):
+                r = call(FIXContainer, d)
+                o.n += 1
+                if not _raises(r, FIXMessageError):
+                    o.add("nonint_tag", "constructor", tgt, "int" if ti in M.NONSTR else sk, None, r,
+                          "FIXMessageError", f"FIXContainer({d!r})")
     # ---- query() ---------------------------------------------------------------
     r = call(c.query)
     o.n += 1
@@ -1080,6 +1116,8 @@ def mut_violation(M, cls, path, st, op, fail, expect, info, acc):
     mop, mfail, delta = classify_mut(M, cls, path, st, op, fail)
     clause = MUT_CLAUSE[(op[0], expect)]
     tk = kind_of(st, M.TAGS[op[1]][1])
+    if op[1] in M.NONSTR:
+        tk = "nonstr_tag"
     sig = f"{clause}|{opname(op)}:{tk}:{delta}:{mfail}"
     x = acc.get(sig)
     if x is not None:
@@ -1372,7 +1410,7 @@ def run(ctx):
     depth = 4 if ctx.quick else 5
     ctx.rule = (
         "level-synchronous BFS over sequences of mutators (set / set replace=True / c[t]=v / del / add_group at "
-        "default,-1,0,1 with dict and FIXContainer items / set_group; every tag spelling incl. refused ones, every "
+        "default,-1,0,1,-2,-3 with dict and FIXContainer items / set_group; every tag spelling incl. refused ones, every "
         "value type) on the real FIXMessage (depth D) and FIXContainer (depth 3); states deduplicated by the "
         "reference model state; in EVERY distinct state all observers (get, [], get default, in, is_group, "
         "get_group_list, get_group_by_index, get_group_by_tag, query, items, pickle, == with derived containers and "
